@@ -159,10 +159,67 @@ def plink_slices(ctx):
     shutil.rmtree(d, ignore_errors=True)
 
 
+def encode_plans(ctx):
+    """the plan dencode-init / encode actually records for its partition tasks (wip/metadata.json), end to end,
+    with and without a schema file -- including a schema generated from ANOTHER store of the same cohort (fewer /
+    more records): the records to be written are those of the store being encoded"""
+    import json
+    import shutil
+
+    from bio2zarr import vcf2zarr
+
+    from lib import vcfgen
+
+    r = ctx.rnd
+    d = os.path.join(ctx.work, "c11_plans")
+    os.makedirs(d, exist_ok=True)
+    P = lambda x: os.path.join(d, x)  # noqa: E731
+    hdr = ["##contig=<ID=c1,length=10000000>", '##INFO=<ID=DP,Number=1,Type=Integer,Description="x">',
+           '##FILTER=<ID=PASS,Description="All filters passed">', '##FORMAT=<ID=GT,Number=1,Type=String,Description="Genotype">']
+    try:
+        for i in range(ctx.n(2, 8)):
+            sizes = sorted({r.randint(1, 12), r.randint(13, 40), r.randint(41, 90)})
+            stores = {}
+            for n in sizes:
+                recs = [f"c1\t{100 + 10 * j}\tv{j}\tA\tT\t{30 + j}\tPASS\tDP={j + 1}\tGT\t0|1\t1/1" for j in range(n)]
+                f = vcfgen.make_indexed(d, f"in{i}_{n}", vcfgen.vcf_text(hdr, recs, samples=["s0", "s1"]), kind="tbi")
+                vcf2zarr.explode(P(f"s{i}_{n}.icf"), [f], worker_processes=0)
+                stores[n] = P(f"s{i}_{n}.icf")
+            for n in sizes:
+                for m in sizes:                          # schema generated from the store with m records
+                    cs = r.choice([1, 2, 3, 4, 7, 16])
+                    sp = P(f"schema{i}_{m}_{cs}.json")
+                    with open(sp, "w") as fh:
+                        vcf2zarr.mkschema(stores[m], fh, variants_chunk_size=cs, samples_chunk_size=2)
+                    np_ = r.choice([1, 2, 3, 5, 8, 100])
+                    nchunks = -(-n // cs)
+                    mc = r.choice([None, None, r.randint(1, nchunks)])
+                    out = P(f"o{i}_{n}_{m}.vcz")
+                    doc = dict(fn="encode_init", num_records=n, schema_from_records=m, chunk_size=cs, num_partitions=np_, max_chunks=mc)
+                    ctx.case(doc, nontrivial=True)
+                    ctx.count("encode-plan:own-schema" if n == m else "encode-plan:other-store-schema")
+                    try:
+                        vcf2zarr.encode_init(stores[n], out, np_, schema_path=sp, max_variant_chunks=mc)
+                        with open(os.path.join(out, "wip", "metadata.json")) as fh:
+                            plan = [(int(p["start"]), int(p["stop"])) for p in json.load(fh)["partitions"]]
+                    except Exception as e:  # noqa: BLE001
+                        ctx.fail(doc, dict(error=f"{type(e).__name__}: {e}"[:200]), "encode_init with a schema file failed")
+                        continue
+                    c = ctx.model.call(1101, [n, cs, np_, [] if mc is None else [mc], [list(x) for x in plan]])
+                    if c != 1:
+                        ctx.fail(doc, dict(plan=plan[:12]), f"encode_init of a {n}-record store (schema generated from a {m}-record store, chunk size {cs}, "
+                                 f"{np_} partitions, max chunks {mc}) plans {plan[:6]}: not an exact chunk-aligned cover of the records to be written (check_C11 = false)")
+                    shutil.rmtree(out, ignore_errors=True)
+                    ctx.traces_validated += 1
+    finally:
+        shutil.rmtree(d, ignore_errors=True)
+
+
 def run(ctx):
     cases = list(gen_cases(ctx))
     run_cases(ctx, cases)
     plink_slices(ctx)
+    encode_plans(ctx)
     # outside the input space: zero records must be rejected (theorem zero_records_rejected)
     fns = impl_fns()
     for cs, np_ in [(1, 1), (5, 3), (1000, 7)]:
